@@ -222,6 +222,40 @@ theorem report_from_state (impl : Impl) (o : Offer) (ctx : ClientCtx) (r : Respo
     · exact Or.inr (Or.inl hg)
     · exact Or.inr (Or.inr (Or.inr hg))
 
+/-- **Every TLS 1.3 hello the client processes echoes the legacy session id — on QUIC too.**
+An accepted TLS 1.3 handshake means the first server message (ServerHello or HelloRetryRequest) and
+the finally processed ServerHello both carry exactly the session id the ClientHello sent; the
+statement holds for every client context, in particular with `ctx.quic = true`, where the hello's id
+is empty (RFC 9001, Section 8.4) and any non-empty id from the server is a mismatch. -/
+theorem session_id_echo_all_hellos (impl : Impl) (o : Offer) (ctx : ClientCtx) (r : Response) (st : State)
+    (h : clientStep impl o ctx r = .accept st) (hv : peerVersion r.hello1 = tls13) :
+    r.hello1.sessionId = o.sessionId ∧ (finalHello impl r).sessionId = o.sessionId ∧
+    (ctx.quic = true → o.sessionId = [] → r.hello1.sessionId = [] ∧ st.sessionId = []) := by
+  obtain ⟨hff, hst⟩ := clientStep_accept h
+  subst hst
+  unfold guards at hff
+  rw [firstFail_append_none] at hff
+  have h13 : (peerVersion r.hello1 == tls13) = true := by simpa using hv
+  rw [if_pos h13] at hff
+  have hg := hff.2
+  unfold guards13 at hg
+  simp only [firstFail_append_none] at hg
+  obtain ⟨⟨⟨⟨⟨⟨_, hc1⟩, hhrr⟩, _⟩, _⟩, _⟩, _⟩ := hg
+  have h1 := (checkSH_facts hc1).2.2.1
+  have hfin : (finalHello impl r).sessionId = o.sessionId := by
+    unfold finalHello
+    by_cases hH : isHRR impl r.hello1 = true
+    · rw [if_pos hH] at hhrr ⊢
+      exact (checkSH_facts (hrr_facts hhrr).2.2).2.2.1
+    · rw [if_neg hH]; exact h1
+  refine ⟨h1, hfin, ?_⟩
+  intro _ he
+  refine ⟨by rw [h1, he], ?_⟩
+  unfold finalState
+  rw [if_pos h13]
+  show (finalHello impl r).sessionId = []
+  rw [hfin, he]
+
 /-! ## non-vacuity: concrete handshakes the model accepts and rejects -/
 
 /-- a small implementation table. -/
@@ -276,5 +310,15 @@ def resp12Ex : Response :=
   { hello1 := { shEx with supportedVersion := 0, suite := 0xc02f, shareGroup := 0, sessionId := [] }, recVersion := tls12, skxCurve := 23 }
 example : ∃ st, clientStep implEx offerEx ctxEx resp12Ex = .accept st ∧ st.group = 23 :=
   ⟨finalState implEx offerEx ctxEx resp12Ex, by decide, by decide⟩
+
+/-- QUIC: the hello's legacy session id is empty; a ServerHello echoing the empty id is accepted
+(hypotheses of `session_id_echo_all_hellos` are satisfiable with `quic = true`), one carrying a
+non-empty id is refused with illegal_parameter. -/
+def offerQ : Offer := { offerEx with sessionId := [] }
+def ctxQ : ClientCtx := { ctxEx with quic := true }
+def respQ : Response := { respEx with hello1 := { shEx with sessionId := [] } }
+example : ∃ st, clientStep implEx offerQ ctxQ respQ = .accept st ∧ st.sessionId = [] :=
+  ⟨finalState implEx offerQ ctxQ respQ, by decide, by decide⟩
+example : clientStep implEx offerQ ctxQ { respQ with hello1 := { shEx with sessionId := [9, 9] } } = .abort .illegalParameter := by decide
 
 end C12
